@@ -205,6 +205,17 @@ def guarded_execute(mod, scenario):
     return res
 
 
+def raised_in_finam(e):
+    """True if the innermost frame of the exception's traceback is finam's own code (the code under test raised on
+    input the harness believes valid) rather than the simulator's."""
+    tb = e.__traceback__
+    last = None
+    while tb is not None:
+        last = tb.tb_frame.f_code.co_filename
+        tb = tb.tb_next
+    return bool(last) and (os.sep + "finam" + os.sep) in last and (os.sep + "sim" + os.sep) not in last
+
+
 def vkey(v):
     return (v["oracle"], v.get("kind", ""))
 
@@ -530,9 +541,9 @@ def run_batch(modname, tier, base_seed, runs=None, workers=None, wall_cap=None,
     for sig, text in sorted(known.items()):
         print(f"KNOWN-FINDING: property={prop} sig={sig} {text} (hit {known_hit.get(sig, 0)}x in this run)",
               flush=True)
-    if harness_errors:
-        for h in harness_errors[:5]:
-            print("HARNESS-ERROR:", h, flush=True)
+    for h in harness_errors[:5]:
+        print("HARNESS-ERROR:", h, flush=True)
+    if harness_errors and not reported:
         return 2
     for path, v, ok in reported:
         if not ok:
